@@ -31,7 +31,7 @@ func init() {
 		},
 		Real:  []string{"quadtree", "planar"},
 		Stub:  []string{"orb.Pointer and FilterFunc implementations are the harness's (user callbacks)"},
-		Instr: []string{"quadtree (engine ast: statement yields)", "planar (engine ast: statement yields)"},
+		Instr: []string{"quadtree, planar and the root package orb (engine ast: a yield before every statement, 757 sites)"},
 		Assumptions: []string{"the tree is not mutated while queries run (documented as unsupported)", "result buffers are per task",
 			"race engine: real goroutines, verdict by the race detector's happens-before analysis (runtime monitoring, labelled as such)"},
 		NonTrivial: func(o *core.Outcome) bool { return o.Switches > 0 },
